@@ -27,7 +27,7 @@ CHECKS = {
     "C07": ("other", "contracts (prefix-sum telescoping, shifted-prefix-sum lemma) + bounded numpy-per-row stand-in",
             "Proved: cumsum and add/subtract/xor accumulate restart at every row (integer data as mathematical integers / 64-bit words), diff plumbing (row r keeps max(L-n,0) differences of its own cells), index_array for sort. sort, unique, diff values end to end are bounded. One known finding (float accumulate).", "0, 20, 11/C07"),
     "C08": ("other", "contracts on structural functions + bounded stand-in",
-            "Proved: concatenate(axis=0) for 2 and 3 operands, zeros/ones/empty_like, where, nonzero, ragged_slice window arithmetic, unravel_multi_index, _raw_broadcast (mask broadcast), subset (row r keeps exactly its True-masked cells in order; fold-of-booleans = rank difference and prefix-sum-of-counts lemmas). as_padded_matrix for both sides (cell (r, c) of the (n, longest row) matrix is the row's own cell or the fill value; 2-D index matrix, clamp, gather, scatter of the fill positions, reshape; flat positions r*W+c in factored form). concatenate(axis=1) (a Python loop over rows) is bounded.", "0, 20, 11/C08"),
+            "Proved: concatenate(axis=0) for 2 and 3 operands, concatenate(axis=1 / -1) for 2 and 3 operands (the real comprehension over zip of the real row generators run for an arbitrary iteration k: the row handed to the constructor is row k of operand 0, then of operand 1, .. ; exactly n iterations; built by the first operand's class; CPython's zip / comprehension protocol and the constructor from a row list assumed), zeros/ones/empty_like, where, nonzero, ragged_slice window arithmetic, unravel_multi_index, _raw_broadcast (mask broadcast), subset (row r keeps exactly its True-masked cells in order; fold-of-booleans = rank difference and prefix-sum-of-counts lemmas). as_padded_matrix for both sides (cell (r, c) of the (n, longest row) matrix is the row's own cell or the fill value; 2-D index matrix, clamp, gather, scatter of the fill positions, reshape; flat positions r*W+c in factored form). concatenate(axis=1) (a Python loop over rows) is bounded.", "0, 20, 11/C08"),
     "C09": ("other", "contracts (col_counts by three inductions, dtype dispatch) + bounded stand-in with dtype extremes",
             "Proved: col_counts[j] = number of rows longer than j, for all row-length vectors; sum(axis=0) accumulator / dtype / index dispatch; the column-sum VALUES of integer arrays (result[k] = sum of the k-th cells of the rows that have one, two inductions over the add.at accumulation, integers mathematical); get_column_values; mean(axis=0) = sum(axis=0) / col_counts() over the callee contracts (float division uninterpreted). Float / bool column-sum values are bounded.", "0, 20, 11/C09"),
     "C10": ("other", "two-state frame contracts on read-only operations + bounded differential histories",
